@@ -479,6 +479,9 @@ class Interp:
             return z3.If(a.is_none, self.veq(NONE, b, node), self.veq(a.val, b, node))
         if isinstance(b, VOpt):
             return z3.If(b.is_none, self.veq(a, NONE, node), self.veq(a, b.val, node))
+        if (isinstance(a, VNone) and isinstance(b, VOpaque)) or (isinstance(b, VNone) and isinstance(a, VOpaque)):
+            x = a if isinstance(a, VOpaque) else b
+            return x.t == self.ctx.NONE_OBJ         # a value known only as a term may be None
         if isinstance(a, VNone) or isinstance(b, VNone):
             return z3.BoolVal(isinstance(a, VNone) and isinstance(b, VNone))
         num = lambda x: x.t if isinstance(x, VInt) else z3.If(x.t, 1, 0)
@@ -518,6 +521,9 @@ class Interp:
         if (isinstance(a, VOpaque) and isinstance(b, VClass)) or (isinstance(b, VOpaque) and isinstance(a, VClass)):
             x, c = (a, b) if isinstance(a, VOpaque) else (b, a)
             return x.t == self.ctx.class_const(c.info)
+        if (isinstance(a, VOpaque) and isinstance(b, VBuiltin) and b.self_val is None) or (isinstance(b, VOpaque) and isinstance(a, VBuiltin) and a.self_val is None):
+            x, c = (a, b) if isinstance(a, VOpaque) else (b, a)
+            return x.t == z3.Const('extname.' + c.name, T.Obj)      # an external class / function as a constant (e.g. x.__class__ == WhisperMessage)
         if isinstance(a, VType) and isinstance(b, VType):
             return z3.BoolVal(a.name == b.name)
         if isinstance(a, VClass) and isinstance(b, VClass):
@@ -851,6 +857,10 @@ class Interp:
         a = self.unwrap(a, node)
         b = self.unwrap(b, node)
         isnum = lambda x: isinstance(x, (VInt, VBool))
+        if isinstance(op, (ast.Add, ast.Sub)) and ((isinstance(a, VOpaque) and isnum(b)) or (isinstance(b, VOpaque) and isnum(a))):
+            # a counter kept in a container of objects: its integer value (an int was stored: box_int / obj_int are inverse)
+            a = VInt(self.ctx.obj_int(a.t)) if isinstance(a, VOpaque) else a
+            b = VInt(self.ctx.obj_int(b.t)) if isinstance(b, VOpaque) else b
         if isnum(a) and isnum(b):
             x, y = self.as_int(a), self.as_int(b)
             if isinstance(op, ast.Add):
@@ -1392,6 +1402,14 @@ class Interp:
         h = self.ctx.index_hook(self, obj, idx, node)
         if h is not None:
             return h
+        if isinstance(obj, VOpaque):
+            # x[k] on an object known only as a term (a stanza in a queue): a function of the object and the key
+            k = self.unwrap(idx, node)
+            if isinstance(k, VSeq) and k.th is T.SeqI:
+                # a stanza: node["key"] is its attribute (the spec form attr(node, "key") is the same pair of functions)
+                return VOpt(self.ctx.uf("node.attr.none", T.Obj, T.SeqI.sort, T.B)(obj.t, k.t),
+                            VSeq(self.ctx.uf("node.attr.val", T.Obj, T.SeqI.sort, T.SeqI.sort)(obj.t, k.t), "str"))
+            return VOpaque(self.ctx.uf('getitem', T.Obj, T.Obj, T.Obj)(obj.t, self.ctx.obj_term(self, k, node)), 'v')
         raise Unsupported('subscript of %r' % (obj,), node)
 
     def symbolic_comprehension(self, node, it, frame):
